@@ -183,7 +183,39 @@ class Interp:
             vals = [self.iv(v, env, rels, fn) for _, v in t[2]]
             return (min(v[0] for v in vals), max(v[1] for v in vals))
         if k == "phi":
-            vals = [self.iv(v, env, rels, fn) for _, v in t[2]]
+            # an arm is evaluated under the branch facts of the block it comes from (`if P <= 2^64 { return a * b % P }` joined
+            # with later returns): an arm whose facts are false for this modulus is not taken
+            vals = []
+            for pb, v in t[2]:
+                ways = None
+                if isinstance(pb, int):
+                    try:
+                        ways = fn.terms.entry_guards(pb)
+                    except Exception:
+                        ways = None
+                if not ways:
+                    vals.append(self.iv(v, env, rels, fn))
+                    continue
+                for fs in ways:
+                    feasible, rl = True, rels
+                    saved = dict(self.bounds)
+                    for c, val, _, _ in fs:
+                        c = strip(c)
+                        want = True if val in ("1", 1, True) or (isinstance(val, tuple) and val[:1] == ("not",) and "0" in str(val[1:])) \
+                            else (False if val in ("0", 0, False) else None)
+                        if want is None:
+                            continue
+                        dec = self.decide(c, env, rels, fn)
+                        if dec is not None and dec != want:
+                            feasible = False
+                            break
+                        self.refine(c, want, env, rels, fn)
+                        rl = self.with_rel(rl, c, want)
+                    if feasible:
+                        vals.append(self.iv(v, env, rl, fn))
+                    self.bounds = saved
+            if not vals:
+                return unk()
             return (min(v[0] for v in vals), max(v[1] for v in vals))
         if k == "mu":
             return self.mu(t, env, rels, fn)
